@@ -3,6 +3,7 @@ its own session; the harness sends SIGINT to the whole process group once every 
 the barrier.  usage: python -m mbv.sampler_sigint <cfg.json> <out.json> <signal_dir>"""
 
 import json
+import os
 import sys
 
 
@@ -10,6 +11,13 @@ def main():
     from mbv import sampler_engine as E
 
     cfg = json.load(open(sys.argv[1]))
+    if os.environ.get("MBV_ONE_POOL_PROCESS"):
+        # schedule control: multiprocessing.Pool may give both `_sample_chains_worker` tasks to ONE pool process (the
+        # other still starting up); a pool of one process makes that legitimate schedule happen every time
+        import mici.samplers as S
+
+        orig = S._pool_context_manager
+        S._pool_context_manager = lambda n_process: orig(1)
     obs = E.run_real(cfg, signal_dir=None if sys.argv[3] == "-" else sys.argv[3])
     json.dump(obs, open(sys.argv[2], "w"))
 
